@@ -1043,8 +1043,8 @@ func init() {
 		ID: "C10",
 		Rule: "a case is a history of defmethod / remove-method / call on one fresh generic function (1 or 2 required arguments; class chain of 4 defclass classes, " +
 			"a 4-class diamond, or real>rational>integer>fixnum, plus t and an unrelated class); every call is judged against a cache-free reference dispatcher (ordered trace, value, condition). " +
-			"Blocks: fixed probes (fast path 0->1->2->1 methods, :around body variants, stacked :around); directed interleavings (caller parked between effective-method lookup and " +
-			"execution while definitions change); concurrent histories (<= 8 goroutines, <= 30 ops, porcupine-checked); random histories of 200 ops and of length <= 7 over the full " +
+			"Blocks: fixed probes (fast path 0->1->2->1 methods, :around body variants, stacked :around; concurrent probe shapes incl. the fast path 0->1->2->1->0 with calls in flight, each run race-detector-only and porcupine-checked); " +
+			"directed interleavings (caller parked between effective-method lookup, or default-caller pick, and execution while definitions change); concurrent histories (<= 8 goroutines, <= 30 ops, porcupine-checked, one in five around the single-method fast path); random histories of 200 ops and of length <= 7 over the full " +
 			"alphabet (one in four starting from :method options of defgeneric); then ALL histories of length 4 (quick) / 5 (thorough) ending in a call over nine 15-symbol alphabets (2 qualifiers x 3 specializer tuples x define/remove, 3 call tuples). " +
 			"distinct = distinct case JSON; non-trivial = at least one judged call and one change of the method table.",
 		N:        nCases,
